@@ -406,8 +406,13 @@ package cisco
 // difference, repaired: see known-findings.txt).
 //vc:func (*State).diffIOSACLs$4
 //vc:  hypothesis[C02,C14] 0 <= pos && pos <= len(al)
-//vc:  invariant[C02,C14] 1 "for i := pos - 1; i >= 0; i--" true
-//vc:  invariant[C02,C14] 2 "for i := pos; i < len(al); i++" true
+// (parser invariant: every ACL line starts with its action word)
+//vc:  hypothesis[C02,C14] forall k int :: { al[k] } 0 <= k && k < len(al) ==> strings.Cut(al[k].parsed, " ") != ""
+//vc:  invariant[C02,C14] 1 "for i := pos - 1; i >= 0; i--" @onlyRemarksBehindCursor -1 <= i && i < pos && (forall k int :: { al[k] } i < k && k < pos ==> strings.Cut(al[k].parsed, " ") == "remark")
+//vc:  invariant[C02,C14] 2 "for i := pos; i < len(al); i++" @onlyRemarksSoFar pos <= i && i <= len(al) && (forall k int :: { al[k] } 0 <= k && k < i ==> strings.Cut(al[k].parsed, " ") == "remark")
+// no block is reported only at the top of the ACL or when the ACL holds nothing
+// but remarks: behind leading remarks the first block counts
+//vc:  ensures[C02,C14] @noBlockOnlyAtTopOrAllRemarks result0 == "" ==> pos == 0 || (forall k int :: { al[k] } 0 <= k && k < len(al) ==> strings.Cut(al[k].parsed, " ") == "remark")
 //vc:  ensures[C02,C14] @blockInFrontOfInsertPosition (pos == 0 ==> result0 == "") && (result0 != "" ==> pos > 0 && result1 == idx2Block[pos-1])
 
 // C07 (ASA): when an interface of the device is registered that Netspoc does
